@@ -173,7 +173,13 @@ pub fn check_msg_limit(
     limit: usize,
     acc: &mut Acc,
 ) -> Result<(), Fail> {
-    let p = from_msg(m);
+    let mut p = from_msg(m);
+    if m.code == 0 && m.mid & 1 == 1 {
+        // code byte 0.00 as a caller can also build it by hand; whether its
+        // payload is sent is read off the unlimited call below, as for Empty
+        p.header.code = coap_lite::MessageClass::Reserved(0);
+        acc.class("code-0-built-as-Reserved(0)");
+    }
     let reference = match m.encode() {
         Ok(r) => r,
         Err(EncErr::OptionValueTooLong) => {
